@@ -78,6 +78,19 @@ def _worker_init(solver_kind, timeout_s):
     _W["run"] = DriverProc("run")
     _W["solver"] = T.Solver(solver_kind, timeout_s)
     _W["kind"] = solver_kind
+    # thorough tier: a second solver (cvc5) re-decides every non-trivial `unsat`; a disagreement is fatal
+    _W["solver2"] = T.Solver("cvc5", 60) if os.environ.get("VERIF_TIER") == "thorough" and solver_kind != "cvc5" else None
+
+
+def _second_opinion(goal, res):
+    """cvc5 must not find a model where z3 answered unsat (unknown / timeout of cvc5 is recorded, not fatal)"""
+    s2 = _W.get("solver2")
+    if s2 is None or goal.op == "c":
+        return
+    r2, _ = s2.check(goal, want_model=False)
+    res["cvc5_" + r2] = res.get("cvc5_" + r2, 0) + 1
+    if r2 == "sat":
+        raise Broken("z3 says unsat, cvc5 says sat on the same query")
 
 
 def _bits(v, w):
@@ -89,7 +102,7 @@ class Case:
 
     def __init__(self, cid, prog, args=None, interpret=True, debug_modes=(False, True), mut=None,
                  validate=True, tags=None, text=None, expect_reject=False, cross=None, note=None,
-                 wit_fixed=None, check_markers=False, expect_params=None, expect_instantiate_error=False):
+                 wit_fixed=None, check_markers=False, expect_params=None, expect_instantiate_error=False, extra_points=0):
         self.cid = cid
         self.prog = prog            # S.Program (specification side)
         self.args = args or {}      # name -> (ty, const expression AST)
@@ -107,6 +120,7 @@ class Case:
         self.check_markers = check_markers  # C14: compare debug markers with the program's tracked calls
         self.expect_params = expect_params  # C12: {name: type string} that parameters() must report exactly
         self.expect_instantiate_error = expect_instantiate_error  # C12: instantiate must refuse these arguments
+        self.extra_points = extra_points  # additional concrete cross-validation points
 
 
 def _arg_request(case):
@@ -203,8 +217,29 @@ def check_case(case):
     return res
 
 
+def case_budget_s():
+    return int(os.environ.get("VERIF_CASE_BUDGET_S", "420"))
+
+
+class _Budgeted:
+    """solver front with a wall-clock budget per case: once it is used up the remaining queries are answered
+    `unknown` (inconclusive), so one restructured program cannot hold a whole check hostage"""
+
+    def __init__(self, solver):
+        self.s = solver
+        self.budget = case_budget_s()
+        self.deadline = time.time() + self.budget
+
+    def check(self, goal, want_model=True, timeout_s=None, abstract=False):
+        left = self.deadline - time.time()
+        if goal.op != "c" and left < 3:
+            return "unknown", "case budget of %d s used up" % self.budget
+        limit = min(timeout_s or self.s.timeout_s, max(3, int(left)))
+        return self.s.check(goal, want_model=want_model, timeout_s=limit, abstract=abstract)
+
+
 def _check_case(case, res):
-    solver = _W["solver"]
+    solver = _Budgeted(_W["solver"])
     text = case.text if case.text is not None else S.program_text(case.prog)
     res["text"] = text
     out = {}
@@ -332,6 +367,7 @@ def _check_case(case, res):
             if case.mut:
                 return {"status": "canary_caught"}
             return _confirm(case, text, dbg, m, d, model, f_spec, fails_by_mode[dbg], res)
+        _second_opinion(goal, res)
     if case.mut:
         return {"status": "canary_missed", "detail": "mutated specification %s was not distinguished" % case.mut}
     if len(case.debug_modes) == 2:
@@ -384,6 +420,16 @@ def _check_case(case, res):
         if found[False]:
             points.append((found[False], False))
         points.append((_random_model(m, rng), None))
+        # extra concrete points (used by C13 to compare the interpreted jet models with the real C jets):
+        # random and boundary arguments; the expected-value witness is set so that half of the runs succeed
+        for k in range(case.extra_points):
+            base = _random_model(m, rng, boundary=(k % 3 == 2))
+            if k % 2 == 0:
+                g = T.substitute(f_impl, {kk: vv for kk, vv in base.items() if not kk.startswith("w_EXP")})
+                r, mod = solver.check(T.not_(g), timeout_s=10)
+                if r == "sat":
+                    base.update(mod)
+            points.append((base, None))
         for model, expect_fail in points:
             try:
                 concrete_fail = bool(T.evaluate(f_impl, model))
@@ -459,8 +505,14 @@ def run_cases(cases, jobs=None, solver_kind="z3", timeout_s=120, progress=None):
     else:
         ctx = mp.get_context("fork")
         with ctx.Pool(jobs, initializer=_worker_init, initargs=(solver_kind, timeout_s)) as pool:
+            prog_path = os.path.join(VERIF, "work", "progress.jsonl")
+            os.makedirs(os.path.dirname(prog_path), exist_ok=True)
+            prog = open(prog_path, "w")
             for i, r in enumerate(pool.imap_unordered(check_case, cases, chunksize=max(1, min(8, len(cases) // (jobs * 4) or 1)))):
                 results.append(r)
+                prog.write(json.dumps({"t": round(time.time() - t0, 1), "cid": r["cid"], "status": r["status"], "wall_s": round(r["wall_s"], 1),
+                                       "solver_s": round(r["solver_s"], 1), "queries": r["queries"]}) + "\n")
+                prog.flush()
                 if progress and (i + 1) % progress == 0:
                     sys.stderr.write("  .. %d/%d cases, %.0fs\n" % (i + 1, len(cases), time.time() - t0))
     return results, time.time() - t0
